@@ -11,7 +11,7 @@ import re
 import shutil
 import vlib
 
-COMPONENTS = [("lru", "LRULin"), ("flush", "FlushLin"), ("pool", "PoolLin"), ("sem", "SemLin")]
+COMPONENTS = [("lru", "LRULin"), ("flush", "FlushLin"), ("pool", "PoolLin"), ("sem", "SemLin"), ("pooldrop", "PoolDropLin")]
 KNOWN_POOL = "pool:flush-not-atomic-across-databases"
 
 
@@ -32,7 +32,7 @@ def run(c):
     samples = []
     for comp, mod in COMPONENTS + [("poolslow", "PoolLin")]:
         hp = c.path("hist_%s.ndjson" % comp)
-        n = runs if comp != "poolslow" else c.pick(45, 200)
+        n = runs if comp not in ("poolslow", "pooldrop") else c.pick(45, 200) if comp == "poolslow" else c.pick(120, 1200)
         st = json.loads(c.vh(["concrecord", "-comp", comp, "-runs", n, "-out", hp]).stdout)
         r = vlib.validate_scenarios(c, "conc", mod, hp, lines_per_chunk=2500, max_rej=6)
         c.log("%s: %s; %d lines validated, %d rejections" % (comp, st, r["validated_lines"], len(r["rejections"])))
